@@ -239,6 +239,13 @@ int main( int argc, char** argv )
    if( !A.kase.empty() ) {
       const std::string js = vf::read_file( A.kase );
       const std::string rn = vf::jget( js, "rule" );
+      if( vf::jget( js, "kind" ) == "fuzz" ) {
+         // libFuzzer artefact: the first byte selects the rule
+         const std::string raw = vf::unhex( vf::jget( js, "hex" ) );
+         if( !raw.empty() ) {
+            check( raw.substr( 1 ), (unsigned char)raw[ 0 ] % 5 );
+         }
+      }
       for( int i = 0; i < 5; ++i ) {
          if( rn == rules[ i ].name ) {
             check( vf::unhex( vf::jget( js, "hex" ) ), i );
